@@ -778,3 +778,81 @@ def r7(cx):
 
 RS.explanation += (' A descriptor line reader (Input::next_line implementation calling Read::read) produces its line only through the '
                    'newline-byte edge or the zero-count edge and never reads after a UTF-8 conversion, so a line is decoded whole (R7).')
+
+
+
+# ---------------------------------------------------------------------------------------
+# added after the audit C18h4 (a line continuation before / inside the delimiter line hid the here-document delimiter)
+@RS.rule('C18.R8', 'K-TAINT+K-SIBLING', 'a here-document ends at its delimiter, so the lexer does not read the commands after it as document text: the line that '
+         'is compared with the delimiter of an unquoted here-document is the line as the content sees it - with line continuations '
+         'removed (XCU 2.7.4: the removal "shall be performed during the search for the trailing delimiter"): the compared text comes from a '
+         'source-text extractor that skips the characters marked is_line_continuation, never from the raw source text')
+def r8(cx):
+    F = cx.F
+    root = [r for r in F.by_root if r.endswith('::here_doc_content') and r.startswith('yash_syntax::parser::lex::heredoc::')]
+    cx.require(len(root) == 1, 'Lexer::here_doc_content not found')
+    body = F.inlined(F.main_body(root[0]))
+    cx.fn(body.fn)
+    du = Q.DefUse(body)
+    # the delimiter text: the local(s) derived from HereDoc::delimiter
+    delim = set()
+    for blk, j, st in body.stmts():
+        if st['k'] == 'assign' and any(isinstance(e, dict) and e.get('f') == 'delimiter' for p_ in Q.rvalue_places(st['rv']) for e in (p_.get('p') or [])):
+            delim.add(st['lhs']['l'])
+    cx.require(delim, 'here_doc_content no longer reads HereDoc::delimiter')
+    through = Q.PROPAGATING_CALLS + Q.AWAIT_CALLS + Q.TRY_BRANCH + [re.compile(r'(skip_quotes|strip|collect|unquote|to_string|as_str|deref|trim_start_matches|clone)\b'),
+                                                                   re.compile(r'::Iterator::\w+$'), re.compile(r'::IntoIterator::into_iter$')]
+    delim = Q.forward_taint(body, delim, through_calls=through)
+    # readers of the lexer's source text: functions of lex::core that return a String from a range of the source
+    def skips_continuations(fn, depth=3):
+        for lb in F.logical(fn) if fn in F.by_root else []:
+            for blk, j, st in lb.stmts():
+                if st['k'] == 'assign' and any(isinstance(e, dict) and e.get('f') == 'is_line_continuation'
+                                               for p_ in Q.rvalue_places(st['rv']) for e in (p_.get('p') or [])):
+                    return True
+            if depth:
+                for blk, t in lb.calls():
+                    c = (t['f'].get('def') or '').split('::{closure')[0]
+                    if c.startswith('yash_syntax::parser::lex::core::') and c != fn and skips_continuations(c, depth - 1):
+                        return True
+        return False
+    cmps = [(blk, t) for blk, t in body.calls() if Q.callee_is(t, [re.compile(r'PartialEq(<.*>)?( for \w+)?>?::(eq|ne)$')])
+            and any((Q.operand_place(a) or {}).get('l') in delim for a in t['a'])]
+    cx.require(cmps, 'no comparison with the delimiter text was found in here_doc_content (shape not understood)')
+    n = 0
+    for blk, t in cmps:
+        other = [a for a in t['a'] if (Q.operand_place(a) or {}).get('l') not in delim]
+        for a in other:
+            # producers of the compared line text
+            want, seen, prods = {(Q.operand_place(a) or {}).get('l')} - {None}, set(), []
+            while want:
+                l = want.pop()
+                if l in seen:
+                    continue
+                seen.add(l)
+                for db, dj, dn in du.defs.get(l, []):
+                    if dj == 't':
+                        c = (dn['f'].get('def') or dn['f'].get('decl') or '')
+                        if c.startswith('yash_syntax::parser::lex::') and 'String' in (body.locals[dn['dest']['l']].get('ty') or ''):
+                            prods.append((db, dn, c.split('::{closure')[0]))
+                        else:
+                            want |= {(Q.operand_place(x) or {}).get('l') for x in dn['a']} - {None}
+                    elif dn.get('k') == 'assign':
+                        want |= {p_['l'] for p_ in Q.rvalue_places(dn['rv'])}
+            for db, dn, c in prods:
+                n += 1
+                # the quoted-delimiter branch reads the line with line continuation disabled: nothing is marked, nothing to remove
+                raw_mode = any(Q.find_calls(lb, [re.compile(r'lex::core::Lexer::<\'a>::disable_line_continuation$'), re.compile(r'::disable_line_continuation$')])
+                               for lb in (F.logical(c) if c in F.by_root else []))
+                ok = skips_continuations(c) or raw_mode
+                cx.site('here_doc_content: the line compared with the delimiter at %s is produced by %s; it skips line continuations: %s'
+                        % (body.loc(t), c.split('::')[-1], ok))
+                if not ok:
+                    cx.violation(root[0], 'delimiter-compared-with-raw-source', 'the line compared with the here-document delimiter is the raw source text '
+                                 '(%s): a backslash-newline before or inside the delimiter line hides the delimiter, and the commands after the '
+                                 'here-document (`cat <<END` / `foo` / `\\` / `END` / `echo next`) are read as document text' % c.split('::')[-1],
+                                 loc=body.loc(dn))
+    cx.require(n >= 1, 'the producer of the line compared with the delimiter was not identified (shape not understood)')
+
+
+RS.explanation += ' The line compared with a here-document delimiter has its line continuations removed (R8).'
